@@ -92,6 +92,9 @@ type RPCFault struct {
 	CutAfter int
 	// CutOnce: the fault is spent once it has cut one stream (the next call on the method goes through)
 	CutOnce bool
+	// Decide, when set, is asked for every call of the method (after Delay and Gate): a non-nil error fails that
+	// call only; it may block on ctx (a call that is held until its caller gives up)
+	Decide func(ctx context.Context, req interface{}) error
 }
 
 type RPCRecord struct {
@@ -753,6 +756,11 @@ func (n *Node) fault(ctx context.Context, method string, req interface{}) error 
 	}
 	if f.Gate != nil {
 		f.Gate(ctx, req)
+	}
+	if f.Decide != nil {
+		if err := f.Decide(ctx, req); err != nil {
+			return err
+		}
 	}
 	return f.Err
 }
